@@ -289,7 +289,7 @@ impl Rewrite {
             Rewrite::AssocL => "RwAssocL".into(), Rewrite::DeMorgan => "RwDeMorgan".into(), Rewrite::NotNot => "RwNotNot".into(),
             Rewrite::Expand => "RwExpand".into(),
             Rewrite::TrueConj(s, t) => format!("(RwTrueConj {} {})", if *s { "true" } else { "false" }, t.to_coq()),
-            Rewrite::Items(p) => format!("(RwItems [{}])", p.iter().map(|x| x.to_string()).collect::<Vec<_>>().join(";")),
+            Rewrite::Items(p) => format!("(RwItems [{}]%nat)", p.iter().map(|x| x.to_string()).collect::<Vec<_>>().join(";")),
             Rewrite::FromSwap => "RwFromSwap".into(), Rewrite::OnToWhere => "RwOnToWhere".into(), Rewrite::WhereToOn => "RwWhereToOn".into(),
         }
     }
